@@ -216,3 +216,45 @@ package xsync
 //@   ensures wInv(w) && (&w.p).gv != nil
 //@   ensures lin != nil && w.pub[lin] && result0 == lin.t && result1 == lin.c
 //@   ensures same ==> wRep(w) && result1 == (&w.p).gv.c && !chclosed(result1) && (old((&w.p).gv) == nil ==> result0 == zero(T)) && (old((&w.p).gv) != nil ==> result0 == old((&w.p).gv.t) && (&w.p).gv == old((&w.p).gv))
+// ---- go1.21 additions of the typed wrapper ----
+
+//@ func Map.CompareAndSwap
+//@   props C18
+//@   anykinds V
+//@   requires mapRep(m)
+//@   modifies (&m.m).dom, (&m.m).val
+//@   ensures mapRep(m)
+//@   ensures result == (old((&m.m).dom[box(key)]) && old((&m.m).val[box(key)]) == box(old))
+//@   ensures result ==> (&m.m).dom == old((&m.m).dom) && (&m.m).val == store(old((&m.m).val), box(key), box(new))
+//@   ensures !result ==> (&m.m).dom == old((&m.m).dom) && (&m.m).val == old((&m.m).val)
+
+//@ func Map.CompareAndDelete
+//@   props C18
+//@   anykinds V
+//@   requires mapRep(m)
+//@   modifies (&m.m).dom, (&m.m).val
+//@   ensures mapRep(m)
+//@   ensures result == (old((&m.m).dom[box(key)]) && old((&m.m).val[box(key)]) == box(old))
+//@   ensures result ==> (&m.m).dom == store(old((&m.m).dom), box(key), false) && (&m.m).val == old((&m.m).val)
+//@   ensures !result ==> (&m.m).dom == old((&m.m).dom) && (&m.m).val == old((&m.m).val)
+
+// Lazy is sync.OnceValue (go1.21 build): the assumed contract names its result onceOf(f) - the function
+// that runs f on the first call and hands every caller that result - so that Lazy is pinned to it.
+//@ ufun onceOf(f) @0
+//@ ext sync.OnceValue(f) (g)
+//@   ensures g == onceOf(f) && g != nil
+//@ func Lazy
+//@   props C18
+//@   requires f != nil
+//@   ensures result == onceOf(f) && result != nil
+
+// Range: every pair the callback is handed is an entry of the map (assumed of sync.Map.Range), so
+// the two conversions back to K and V cannot fail.
+//@ ext sync.Map.Range(sm, f)
+//@   repeats f
+//@   repeatargs sm.dom[cbarg0] && cbarg1 == sm.val[cbarg0]
+//@ func Map.Range
+//@   props C18
+//@   anykinds V
+//@   requires mapRep(m) && f != nil
+//@   loop Range: invariant mapRep(m)
